@@ -10,6 +10,7 @@ import (
 	"math/rand/v2"
 
 	"github.com/oasisprotocol/curve25519-voi/curve"
+	"github.com/oasisprotocol/curve25519-voi/curve/scalar"
 	"github.com/oasisprotocol/curve25519-voi/zzverif/gen"
 	"github.com/oasisprotocol/curve25519-voi/zzverif/gx"
 	"github.com/oasisprotocol/curve25519-voi/zzverif/mon"
@@ -107,7 +108,62 @@ func (x *ctx) decodeString(b []byte) {
 	if !cm.IsCanonicalVartime() || !ref.Decode(mb).Canonical {
 		r.Violate("edwards/encoding-not-canonical", fmt.Sprintf("encoding %x; %s", mb, det()), x.c)
 	}
+	if (b[3]^b[17])&7 == 0 { // one string in eight (the reference's scalar multiplications dominate the cost)
+		x.usable("SetCompressedY", p, d.Pt, det)
+		x.usable("UnmarshalBinary", q, d.Pt, det)
+	} else if msg := gx.Coherent(p); msg != "" {
+		r.Violate("edwards/SetCompressedY/result-incoherent", msg+"; "+det(), x.c)
+	}
+	x.owned("EdwardsPoint.MarshalBinary", func() []byte { o, _ := p.MarshalBinary(); return o }, det)
+	x.owned("CompressedEdwardsY.MarshalBinary", func() []byte { o, _ := cq.MarshalBinary(); return o }, det)
+	// marshal and unmarshal through one and the same object
+	if o, _ := cq.MarshalBinary(); cq.UnmarshalBinary(o) != nil || !bytes.Equal(cq[:], b) {
+		r.Violate("edwards/CompressedEdwardsY/unmarshal-own-marshalling", fmt.Sprintf("object holds %x; %s", cq[:], det()), x.c)
+	}
+	if o, _ := q.MarshalBinary(); q.UnmarshalBinary(o) != nil || !bytes.Equal(enc(q), want) {
+		r.Violate("edwards/EdwardsPoint/unmarshal-own-marshalling", fmt.Sprintf("object encodes to %x; %s", enc(q), det()), x.c)
+	}
 	x.predicates(p, d.Pt, nil, det)
+}
+
+// usable: a point object that a decoder or conversion produced must be a complete point - not merely one that encodes
+// correctly. It is used as an operand of the group law (which reads all four extended coordinates) and of the order
+// tests, and the in-package observer checks the coordinate invariants directly.
+func (x *ctx) usable(how string, p *curve.EdwardsPoint, want ref.Pt, det func() string) {
+	r := x.r
+	r.EvalN(4)
+	r.Hist("usable/" + how)
+	B := curve.ED25519_BASEPOINT_POINT
+	if got, w := enc(curve.NewEdwardsPoint().Add(p, B)), ref.Encode(want.Add(ref.B)); !bytes.Equal(got, w) {
+		r.Violate("edwards/"+how+"/result-unusable/Add", fmt.Sprintf("P+B = %x, want %x; %s", got, w, det()), x.c)
+	}
+	if got, w := enc(curve.NewEdwardsPoint().Sub(B, p)), ref.Encode(ref.B.Add(want.Neg())); !bytes.Equal(got, w) {
+		r.Violate("edwards/"+how+"/result-unusable/Sub", fmt.Sprintf("B-P = %x, want %x; %s", got, w, det()), x.c)
+	}
+	if got, w := enc(curve.NewEdwardsPoint().Mul(p, three)), ref.Encode(want.Mul(big.NewInt(3))); !bytes.Equal(got, w) {
+		r.Violate("edwards/"+how+"/result-unusable/Mul", fmt.Sprintf("[3]P = %x, want %x; %s", got, w, det()), x.c)
+	}
+	if got, w := p.IsTorsionFree(), want.Mul(ref.L).IsIdentity(); got != w {
+		r.Violate("edwards/"+how+"/result-unusable/IsTorsionFree", fmt.Sprintf("got %v want %v; %s", got, w, det()), x.c)
+	}
+	if msg := gx.Coherent(p); msg != "" {
+		r.Violate("edwards/"+how+"/result-incoherent", msg+"; "+det(), x.c)
+	}
+}
+
+var three = scalar.NewFromUint64(3)
+
+// owned: a byte slice handed out by the library belongs to the caller; overwriting it must not reach the object.
+func (x *ctx) owned(what string, produce func() []byte, det func() string) {
+	b := produce()
+	orig := append([]byte{}, b...)
+	for i := range b {
+		b[i] ^= 0xa5
+	}
+	x.r.Eval(nil)
+	if again := produce(); !bytes.Equal(again, orig) {
+		x.r.Violate("edwards/"+what+"/returned-slice-aliases-the-object", fmt.Sprintf("after the caller overwrote the returned bytes the object encodes to %x, before %x; %s", again, orig, det()), x.c)
+	}
 }
 
 // predicates checks the mathematical predicates on lp (a library point equal to want) in several projective scalings.
@@ -151,6 +207,8 @@ func (x *ctx) predicates(lp *curve.EdwardsPoint, want ref.Pt, rng *rand.Rand, de
 			back, err := curve.NewEdwardsPoint().SetMontgomery(&m, uint8(want.X.Bit(0)))
 			if err != nil || !bytes.Equal(enc(back), ref.Encode(want)) {
 				r.Violate("montgomery/round-trip", fmt.Sprintf("err=%v scaling=%d; %s", err, k, det()), x.c)
+			} else if k == 0 {
+				x.usable("SetMontgomery(round trip)", back, want, det)
 			}
 		}
 	}
@@ -327,6 +385,9 @@ func (x *ctx) montgomery(rng *rand.Rand) {
 			}
 			if want == nil && p != nil {
 				r.Violate("montgomery/SetMontgomery/result-on-failure", det(), x.c)
+			}
+			if want != nil && err == nil {
+				x.usable(fmt.Sprintf("SetMontgomery(sign=%d)", sign), p, *want, det)
 			}
 			// MontgomeryPoint.Equal compares values mod p ignoring bit 255
 			var m2 curve.MontgomeryPoint
